@@ -1001,6 +1001,11 @@ def classify(ctx: HandlerContext) -> Classification:
     if idx >= len(tokens) or tokens[idx] == "-":
         return Classification("ask", description=desc)
 
+    # bash rewrites these words before python sees them (~, $VAR, `cmd`, {a,b},
+    # globs): the file named here is not necessarily the file that runs
+    if tokens[idx].startswith("~") or any(c in tokens[idx] for c in "$`{*?["):
+        return Classification("ask", description=desc)
+
     script_path = Path(tokens[idx])
     if not script_path.is_absolute():
         script_path = cwd / script_path
